@@ -104,7 +104,9 @@ def make_schema(variant=0):
     # term's occurrences; one field with positions (and characters in every other variant), one with frequencies only
     anab = analysis.RegexTokenizer(r"\S+") | analysis.DelimitedAttributeFilter()
     schema.add("wb", fields.TEXT(analyzer=anab, phrase=True, chars=(variant % 2 == 0)))
-    schema.add("wf", fields.TEXT(analyzer=anab, phrase=False))
+    # (... whose term vectors are in another format than its postings: positions)
+    from whoosh import formats
+    schema.add("wf", fields.TEXT(analyzer=anab, phrase=False, vector=formats.Positions()))
     # a dynamic field: indexed, scorable, with vectors, not stored
     schema.add("*_dyn", fields.TEXT(analyzer=ana, phrase=True, vector=(variant % 2 == 0)), glob=True)
     return schema
@@ -498,17 +500,23 @@ def dump(reader, idx, schema, rng=None, maxterms=40, columns=True, vectors=True,
             obs.append({"kind": "stored", "d": dn, "vals": vals})
         guard("stored", st)
         if vectors:
-            def vec(dn=dn):
-                if reader.has_vector(dn, "body"):
-                    v = reader.vector(dn, "body")
-                    lst = []
-                    while v.is_active():
-                        lst.append([term_of(v.id()), int(v.value_as("frequency")), [int(p) for p in v.value_as("positions")]])
-                        v.next()
-                    obs.append({"kind": "vector", "f": "body", "d": dn, "list": lst})
-                else:
-                    obs.append({"kind": "vector", "f": "body", "d": dn, "list": []})
-            guard("vector", vec)
+            for vf in ("body", "wf"):
+                def vec(dn=dn, vf=vf):
+                    if reader.has_vector(dn, vf):
+                        v = reader.vector(dn, vf)
+                        lst = []
+                        while v.is_active():
+                            lst.append([term_of(v.id()), int(v.value_as("frequency")), [int(p) for p in v.value_as("positions")]])
+                            v.next()
+                        obs.append({"kind": "vector", "f": vf, "d": dn, "list": lst})
+                        # ... and the same through the shortcut that decodes the values itself
+                        fr = list(reader.vector_as("frequency", dn, vf))
+                        ps = dict(reader.vector_as("positions", dn, vf))
+                        obs.append({"kind": "vector", "f": vf, "d": dn, "path": "vector_as",
+                                    "list": [[term_of(t), int(n), [int(p) for p in ps[t]]] for t, n in fr]})
+                    else:
+                        obs.append({"kind": "vector", "f": vf, "d": dn, "list": []})
+                guard("vector:" + vf, vec)
     if columns:
         for f in COLUMN_FIELDS:
             fobj = schema[f]
